@@ -2,6 +2,7 @@
 from __future__ import annotations
 
 import ast
+import typing as T
 
 from ..context import Context
 from ..guards import guards_of
@@ -236,11 +237,97 @@ def _send_may_precede(ctx: Context, f: FuncInfo, node: ast.AST, reach: dict[str,
         for s in sites:
             if s.owner is f and any(t.qual in reach for t in s.repo_targets()) and same_request(ctx, s, f):
                 send_nodes.append((n, s))
+    flag = _sent_flag(ctx, f, node, cfg, [n for n, _ in send_nodes])
     for n, s in send_nodes:
         r = cfg.reachable([n])
         if any(t.id in r for t in targets):
+            if flag is not None and flag(n, s):
+                continue
             return True, f"`{s.text()}` at line {n.lineno} of {f.short}"
     return False, ""
+
+
+def _anchor(a: ast.AST) -> ast.AST:
+    """The part of a statement a CFG node stands for (the test of a compound statement, not its body)."""
+    if isinstance(a, ast.withitem):
+        return a.context_expr
+    if isinstance(a, (ast.If, ast.While)):
+        return a.test
+    if isinstance(a, (ast.For, ast.AsyncFor)):
+        return a.iter
+    if isinstance(a, (ast.ExceptHandler, ast.Try, ast.With, ast.AsyncWith)):
+        return ast.Pass()
+    return a
+
+
+def _sent_flag(ctx: Context, f: FuncInfo, raise_node: ast.AST, cfg, send_nodes: list) -> T.Any:
+    """`sent = False` before the sends, `sent = True` when a send has returned, and the raise under `not sent` (and under a test of the caught class): the raise follows a
+    send only through an exception raised INSIDE that send.  That is still `nothing sent` when, in the sending routine, no operation that can raise the tested class comes
+    after a network write (h2 refuses `send_headers` before it queues anything).  Returns a predicate (send node, site) -> `cannot have put data on the wire before
+    this raise`, or None if the raise is not guarded by such a flag."""
+    esc = ctx.escape
+    gs = guards_of(raise_node)
+    flags = [norm(t.operand) for t, pol in gs if pol and isinstance(t, ast.UnaryOp) and isinstance(t.op, ast.Not) and isinstance(t.operand, ast.Name)] + \
+            [norm(t) for t, pol in gs if not pol and isinstance(t, ast.Name)]
+    cls_tests = [t for t, pol in gs if pol and isinstance(t, ast.Call) and norm(t.func) == "isinstance" and len(t.args) == 2]
+    if not flags or not cls_tests:
+        return None
+    x = flags[0]
+    stores = [n for n in cfg.nodes if n.kind == "stmt" and isinstance(n.ast, ast.Assign) and len(n.ast.targets) == 1 and norm(n.ast.targets[0]) == x]
+    falses = [n for n in stores if isinstance(n.ast.value, ast.Constant) and n.ast.value.value is False]
+    trues = [n for n in stores if isinstance(n.ast.value, ast.Constant) and n.ast.value.value is True]
+    if not falses or not trues or len(falses) + len(trues) != len(stores):
+        return None
+    after_send = set()
+    for sn in send_nodes:
+        after_send |= cfg.reachable([sn])
+    if any(fn.id in after_send for fn in falses):
+        return None                 # the flag can be reset after a send
+    tested = []
+    for t in cls_tests:
+        ts = t.args[1]
+        for e in (ts.elts if isinstance(ts, ast.Tuple) else [ts]):
+            nm = esc.exc_name(f.module, e)
+            if nm is None:
+                return None
+            tested.append(nm)
+
+    def quiet_inside(site) -> bool:
+        # in the routine(s) the send goes through: nothing that can raise a tested class is reachable from a node that (transitively) writes to the network
+        cg = ctx.callgraph
+        for t in site.repo_targets():
+            reach_t = cg.reachable([t])
+            for q in reach_t:
+                g = cg.funcs.get(q)
+                if g is None:
+                    continue
+                gcfg = ctx.cfg(g)
+                writes = [n for n in gcfg.nodes if n.ast is not None and any(
+                    isinstance(c, ast.Call) and (norm(c.func).endswith("_network_stream.write") or any(
+                        any(norm(c2.func).endswith("_network_stream.write") for c2 in own_nodes(cg.funcs[q2].node) if isinstance(c2, ast.Call))
+                        for t2 in [tt for s2 in cg.sites_at(c) for tt in s2.repo_targets()] for q2 in cg.reachable([t2]) if q2 in cg.funcs))
+                    for c in ast.walk(_anchor(n.ast)) if isinstance(c, ast.Call))]
+                if not writes:
+                    continue
+                after_w = set()
+                for w in writes:
+                    after_w |= gcfg.reachable([e.dst for e in w.succ if e.kind != "exc"], follow=lambda e: e.kind != "exc")
+                for n in gcfg.nodes:
+                    if n.id in after_w and any(esc.is_sub(c, k) for c in n.raises.classes() for k in tested):
+                        return False
+        return True
+
+    def pred(n, site) -> bool:
+        # the send lies after the flag was set: the raise under `not flag` cannot follow it
+        if any(cfg.dominates(tn, n) and tn is not n for tn in trues):
+            return True
+        # the send completes into `flag = True` on every normal path to the raise; the exceptional way out is quiet
+        normal = cfg.reachable([e.dst for e in n.succ if e.kind != "exc"], follow=lambda e: e.kind != "exc", stop=lambda m: any(m is tn for tn in trues))
+        targets = cfg.nodes_for(raise_node)
+        if any(t.id in normal for t in targets):
+            return False
+        return quiet_inside(site)
+    return pred
 
 
 
